@@ -167,7 +167,17 @@ def run(F, R, tier):
             seen.add(name)
             written = []
             bad_read = None
-            for st in stmts:
+            flat = []
+
+            def _flatten(xs):
+                for x_ in xs:
+                    x0 = strip_all(x_)
+                    if x0 is not None and x0.get("k") == "CompoundStmt":
+                        _flatten(x0.get("c", []))          # an arm written as  case X: { ... } break;
+                    else:
+                        flat.append(x_)
+            _flatten(stmts)
+            for st in flat:
                 # reads first (arguments), then the write performed by the statement
                 w = None
                 s0 = strip_all(st)
